@@ -24,6 +24,7 @@ EXPLANATION = (
     "type comparison (R2), validator/trimmer/offset-map layout agreement (R3), RTU trailing bytes (R4) and the signedness of "
     "the echoed value against the provenance of written values (R5). Does not decide CRC arithmetic on concrete frames."
     ' R5 also requires every single-register write command to hand the validator exactly the value expression it puts on the wire (wire-value).'
+    ' (R6, shared with C07.R4) every path of the receive callbacks hands the received bytes to the validator: no ad-hoc test of the bytes filters frames or continuation fragments out beforehand.'
 )
 
 
